@@ -65,6 +65,16 @@ def main():
     case("dropped Evaporate event (its water change then shows up in the next stage)", ("Transpire", "closure"), lambda d: d["events"].pop(find(d, "Evaporate", lambda e: "W" in e, nth=10)))
     case("summary row: harvest step +1", ("DayEnd.summary", "step"), lambda d: d["events"][find(d, "DayEnd", lambda e: "lastStat" in e)]["lastStat"].__setitem__("step", d["events"][find(d, "DayEnd", lambda e: "lastStat" in e)]["lastStat"]["step"] + 1))
 
+    case("infiltration applies another efficiency than the configured one", ("Infiltrate", "effOfConfig"),
+         lambda d: d["events"][find(d, "Infiltrate", lambda e: from_num(e["irr"]) > 0)].__setitem__("appEff", to_num(55.0)))
+    case("summary row rewritten after its harvest day", ("DayEnd.summary", "frozen"),
+         lambda d: d["events"][find(d, "DayEnd", lambda e: len(e.get("statKeys", [])) == 2)]["statKeys"].__setitem__(0, "00ff"))
+    case("irrigation decision reads other thresholds than the configured ones", ("Irrigate", "cfgMethod"),
+         lambda d: d["events"][find(d, "Irrigate", lambda e: e["gs"], nth=5)].__setitem__("maxIrr", to_num(3.0)))
+
+    case("initialisation stored another application efficiency than the user's", ("Init.config", "irr"),
+         lambda d: d["cfg"]["built"]["irr"].__setitem__("AppEff", to_num(55.0)))
+
     # seeded IMPLEMENTATION fault (not a trace edit): drainage silently loses 1 mm from the top compartment
     import aquacrop.timestep.run_single_timestep as rst
     orig = rst.drainage
